@@ -122,6 +122,21 @@ theorem write_shrinks (s : St) (i : Id) (n : Nat) (o : Outcome) : Shrinks s (wri
   repeat' split
   all_goals first | exact Shrinks.frame rfl | exact updSet_shrinks s i _ _
 
+theorem mkPair_shrinks (s : St) (i : Id) : Shrinks s (mkPair s i) := by
+  unfold mkPair; dsimp only; split
+  · exact Shrinks.trans (b := { s with clients := _, used := _, order := _ }) (Shrinks.frame rfl) (pollSet_shrinks _ _ _)
+  · exact Shrinks.refl s
+
+theorem mkListener_shrinks (s : St) (i : Id) : Shrinks s (mkListener s i) := by
+  unfold mkListener; dsimp only; split
+  · exact Shrinks.trans (b := { s with listeners := _, used := _, order := _ }) (Shrinks.frame rfl) (pollSet_shrinks _ _ _)
+  · exact Shrinks.refl s
+
+theorem mkEst_shrinks (s : St) (i : Id) : Shrinks s (mkEst s i) := by
+  unfold mkEst; dsimp only; split
+  · exact Shrinks.trans (b := { s with ests := _, used := _, order := _ }) (Shrinks.frame rfl) (pollSet_shrinks _ _ _)
+  · exact Shrinks.refl s
+
 theorem applyAct_shrinks (s : St) (nc : Option Id) (a : Act) : Shrinks s (applyAct s nc a) := by
   cases a <;> simp only [applyAct]
   case mkTimer i iv => unfold mkTimer; dsimp only; split <;> exact Shrinks.frame rfl
@@ -136,6 +151,9 @@ theorem applyAct_shrinks (s : St) (nc : Option Id) (a : Act) : Shrinks s (applyA
   case resume i => exact resume_shrinks s i
   case read i => exact read_shrinks s i
   case write i n o => exact write_shrinks s i n o
+  case mkPair i => exact mkPair_shrinks s i
+  case mkListener i => exact mkListener_shrinks s i
+  case mkEst i => exact mkEst_shrinks s i
 
 theorem runActs_shrinks (s : St) (nc : Option Id) (acts : List Act) : Shrinks s (runActs s nc acts) := by
   induction acts generalizing s with
